@@ -946,6 +946,8 @@ func (c *Ctx) fldCheck(rr *core.RuleResult, f *core.Func, tracked types.Object, 
 						okf(key, n.Pos(), "tracked", "returns the tracked non-empty list with a nil error")
 					} else if call, ok := ast.Unparen(n.Results[0]).(*ast.CallExpr); ok && preserving(call) {
 						okf(key, n.Pos(), "helper", "returns what a helper that only appends to the tracked list hands back")
+					} else if call, ok := ast.Unparen(n.Results[0]).(*ast.CallExpr); ok && isBuiltinCall(info, call, "append") && len(call.Args) >= 1 && isIdentOf(info, call.Args[0], tracked) {
+						okf(key, n.Pos(), "append", "returns the tracked list with elements appended")
 					} else {
 						badf(key, n.Pos(), "returns a nil error with a list other than the tracked one")
 					}
